@@ -516,6 +516,41 @@ def typeOfJson (E : Ext) (j : Json) : Res Ty :=
   | .panic _ => .err "invalid object type"
   | r => r
 
+def isListTy : Ty → Bool
+  | .list _ => true
+  | _ => false
+
+/-- The three variables `notNull, minLen, maxLen` that `unmarshalUnknownValue` keeps next to the
+builder since /repo bb6ac26, as they stand after the loop over `n` announced entries of `stream`
+went through: `notNull` is set by a nullness entry that says "not null", `minLen` / `maxLen`
+are moved by every length bound that tightens them (`if bound > minLen`, `if bound < maxLen`). -/
+def lenFacts : Nat → List Item → Bool × Int × Int → Bool × Int × Int
+  | n + 1, k :: v :: rest, f =>
+    (match decInt64 k with
+     | none => f
+     | some key =>
+       if key = keyNullness then
+         lenFacts n rest (match decBool v with
+                          | some false => (true, f.2.1, f.2.2)
+                          | _ => f)
+       else if key = keyLengthMin then
+         lenFacts n rest (match decInt64 v with
+                          | some b => (f.1, (if b > f.2.1 then b else f.2.1), f.2.2)
+                          | none => f)
+       else if key = keyLengthMax then
+         lenFacts n rest (match decInt64 v with
+                          | some b => (f.1, f.2.1, (if b < f.2.2 then b else f.2.2))
+                          | none => f)
+       else lenFacts n rest f)
+  | _, _, f => f
+
+/-- `notNull && ty.IsListType() && minLen == maxLen && minLen > 0` (/repo bb6ac26): the
+refinements describe a list of known length, which the refinement builder would turn into a
+KNOWN list of that many unknown elements; the decoder refuses it before `NewValue`. -/
+def knownLenList (ty : Ty) (n : Nat) (stream : List Item) : Bool :=
+  let f := lenFacts n stream (false, 0, Refine.maxInt)
+  f.1 && isListTy ty && f.2.1 == f.2.2 && decide (f.2.1 > 0)
+
 /-! How the refinement builder's `Value.Equals` on numbers is answered is a parameter
 (`Refine.EqOracle`): the driver runs the decoder with `textOracle` (what the code does)
 and with `partialOracle` (exact, the instance the theorems are stated for). -/
@@ -540,7 +575,9 @@ def unmarshal (E : Ext) (it : Item) (ty : Ty) : Res Value :=
            else (Refine.init (Value.unknown ty)).bind Refine.newValue
          | .map n =>
            if ty.isDyn then .ok (Value.unknown ty)
-           else (Refine.init (Value.unknown ty)).bind fun b => (rfnLoop E ty n stream b).bind Refine.newValue)
+           else (Refine.init (Value.unknown ty)).bind fun b => (rfnLoop E ty n stream b).bind fun b' =>
+             if knownLenList ty n stream then .err "invalid refinements for unknown value: a list of known length"
+             else Refine.newValue b')
   | .nil => .ok (Value.null ty)          -- also for the placeholder: `DecodeArrayLen` answers -1
   | .bool b =>
     (match ty with
